@@ -91,7 +91,7 @@ def correspondence(ck, binpath, doc, n, runs):
     if rc != 0:
         ck.tie_broken("harness c35 corr failed", err[-2000:])
         return
-    lines = [json.loads(l) for l in out.splitlines() if l.strip()]
+    lines = [json.loads(l) for l in jlines(out) if l.strip()]
     terms, owners = [], []
     untyped = not_wf = 0
     for c in lines:
@@ -129,7 +129,7 @@ def search(ck, binpath, doc, n, runs, mdruns):
     if rc != 0:
         ck.tie_broken("harness c35 search failed", err[-2000:])
         return
-    for l in out.splitlines():
+    for l in jlines(out):
         if not l.strip():
             continue
         v = json.loads(l)
@@ -147,7 +147,7 @@ def replay(ck, binpath, doc, path):
         f = os.path.join(ck.work, "replay_case_%d.json" % k)
         json.dump(v["case"], open(f, "w"))
         rc, out, err = ck.run_bin(binpath, ["one", "--case", f, "--runs", 6, "--mdruns", 3, "--bin", doc, "--dir", os.path.join(ck.work, "ws")], timeout=600)
-        for l in out.splitlines():
+        for l in jlines(out):
             if l.strip():
                 vv = json.loads(l)
                 if "signature" in vv:
